@@ -8,7 +8,7 @@
 (* Every event is judged under the strict model (D = {}) and, if that       *)
 (* fails, under the named deviations, which attributes it to a known        *)
 (* finding or leaves it as a violation.                                      *)
-EXTENDS Codec, NackDefs, Json, IOUtils
+EXTENDS Codec, NackDefs, Units, Json, IOUtils
 
 TraceFile == IOEnv.VERIF_TRACE
 Trace     == ndJsonDeserialize(TraceFile)
@@ -133,6 +133,17 @@ TrRemb ==
                  ELSE IF e.op = "rembdec" THEN RembDecTags(D, e.exp, e.args, e.out) ELSE RembEncTags(e.args, e.out) IN
      /\ UNCHANGED vars /\ Step(Verdict(G, {}), {"nack"}, "REMB")
 
+\* unit tables and exhaustive Go sweeps (C16)
+TrTables ==
+  /\ e.op \in {"utable", "rletable", "sweep"}
+  /\ LET G(D) == IF e.panic THEN {"C16:panic"}
+                 ELSE CASE e.op = "utable" -> UnitRowTags(e.entry, e.start, e.out)
+                        [] e.op = "rletable" -> RleRowTags(e.start, e.out)
+                        [] e.op = "sweep" -> (IF e.failures # << >> THEN
+                                                 {IF e.entry = "nackequiv32" THEN "C12:equivariance"
+                                                  ELSE IF e.entry = "rembscale24" THEN "C14:scaling" ELSE "C16:sweep"} ELSE {}) IN
+     /\ UNCHANGED vars /\ Step(Verdict(G, {}), {"nack"}, IF e.op = "rletable" THEN "rle" ELSE e.entry)
+
 DecRes(ev) == [ok |-> ev.ok, out |-> ev.out, panic |-> ev.panic, slow |-> ev.slow, alloc |-> ev.alloc]
 DecClass(prefix, st, ok) ==
   {prefix \o (IF st = "ok" THEN "_valid" ELSE IF st = "rej" THEN "_mustreject" ELSE "_undefined")}
@@ -195,7 +206,7 @@ TrUnitEnc ==
 TraceNext ==
   /\ l <= Len(Trace)
   /\ \/ TrBuild \/ TrSetBuf \/ TrReset \/ TrMarshal \/ TrSize \/ TrDest \/ TrHeader \/ TrString
-     \/ TrUnmarshal \/ TrDatagram \/ TrUnitDec \/ TrUnitEnc \/ TrValidate \/ TrCname \/ TrNack \/ TrRemb
+     \/ TrUnmarshal \/ TrDatagram \/ TrUnitDec \/ TrUnitEnc \/ TrValidate \/ TrCname \/ TrNack \/ TrRemb \/ TrTables
 
 TraceSpec == TraceInit /\ [][TraceNext]_tvars
 
